@@ -59,11 +59,39 @@ class C03(Check):
                           'x structured energies/angles, each call made with an empty slot and with NULL; non-trivial = successful calls' % len(dist),
                      distinct_nontrivial=len(nontriv), negative_values_observed=neg, per_function_ok_err={k: v for k, v in sorted(dist.items())},
                      samples=[dict(call=ls[i], with_slot=a[i], without=b[i]) for i in (0, len(ls) // 2, len(ls) - 1)])
+        # ---- the functions that read the Kissel tables fail for every input in the shipped configuration: judge them once more on the table
+        #      regenerated from data/kissel, where they succeed
+        KRE = re.compile(r'Kissel|Photo_Total|Photo_Partial|^ElectronConfig$|^P[LM]\d_')
+        kls = [l for l in ls if KRE.search(l.split(' ')[0])]
+        nk = 0
+        if kls:
+            try:
+                suf = ctx.build_kissel_config('real'); kexe = ctx.sc.path('cdrv' + suf)
+                ka = ctx.run_c(kls, exe=kexe); kb = ctx.run_c([l[:-1] + 'N' for l in kls], exe=kexe)
+                ksucc = 0
+                for l, x, y in zip(kls, ka, kb):
+                    fn = l.split(' ')[0]; p_ = core.parse_answer(x); q_ = core.parse_answer(y); nk += 2
+                    if p_['kind'] != 'ok' or q_['kind'] != 'ok':
+                        viol.append(dict(key=l + '  @real', got=x, expected='a result (no abort)', what='call aborted (regenerated Kissel table)')); continue
+                    v = p_['vals'][0]
+                    if p_['slot'] == 'E':
+                        ksucc += 1
+                        if isinstance(v, float) and not math.isfinite(v): viol.append(dict(key=l + '  @real', got=x, expected='finite value', what='non-finite result without an error'))
+                        elif apisweep.is_positive_quantity(fn) and v == 0: viol.append(dict(key=l + '  @real', got=x, expected='non-zero or an error', what='positive quantity returned as 0 without an error'))
+                    else:
+                        m_ = re.fullmatch(r'F(\d+):(.+)', p_['slot'], re.S)
+                        if not m_ or int(m_.group(1)) > 5 or v != 0: viol.append(dict(key=l + '  @real', got=x, expected='sentinel 0 with one error (code 0..5, non-empty message)', what='malformed failure'))
+                    w = q_['vals'][0]
+                    if not ((v == w) or (isinstance(v, float) and isinstance(w, float) and math.isnan(v) and math.isnan(w))) or q_['slot'] != 'N':
+                        viol.append(dict(key=l + '  @real', got='%s | without slot: %s' % (x, y), expected='identical value', what='passing no error slot changed the result'))
+                stats['kissel_regenerated'] = dict(calls=nk, succeeded=ksucc)
+            except core.BuildError as ex:
+                viol.append(dict(key='regenerated-Kissel configuration', got=str(ex)[:300], expected='builds', what='data/kissel -> kissel_pe.dat -> prdata'))
         on, ov, ost = self.object_api(ctx)
         stats.update(ost)
         stats['rule'] += '; plus the string / object API (formula parser, NIST and radionuclide lookups and lists, symbols, the 21 _CP functions and 3 refractive-index entry points, crystal lookups / copies / lists) ' \
                          'on valid formulas, NIST names, garbage and NULL, at energies on both sides of every table end, each call with a slot and without'
-        return 2 * len(ls) + on, (viol + ov)[:300], stats
+        return 2 * len(ls) + on + nk, (viol + ov)[:300], stats
 
     def object_api(self, ctx):
         """the error contract on the functions that take strings / hand out objects (harness/c04heap.c)"""
